@@ -199,6 +199,42 @@ theorem mem_rewind (ls : LeafSet) (cutoff : Nat) (rm : Bitmap) (hs : Sorted ls.b
     · left; exact ⟨h1, by omega⟩
     · right; exact h
 
+theorem mem_and {a b : Bitmap} {y : Nat} : y ∈ Bm.and a b ↔ y ∈ a ∧ y ∈ b := by
+  simp [Bm.and, Bm.contains]
+
+theorem mem_flip {b : Bitmap} {lo hi y : Nat} :
+    y ∈ Bm.flip b lo hi ↔ (y ∈ b ∧ (y < lo ∨ hi ≤ y)) ∨ (lo ≤ y ∧ y < hi ∧ y ∉ b) := by
+  simp only [Bm.flip, List.mem_append, List.mem_filter, List.mem_range', Bm.contains,
+    decide_eq_true_eq, Bool.not_eq_true', List.elem_eq_mem, decide_eq_false_iff_not]
+  constructor
+  · rintro ((⟨h1, h2⟩ | ⟨⟨i, hi1, rfl⟩, h2⟩) | ⟨h1, h2⟩)
+    · left; exact ⟨h1, Or.inl h2⟩
+    · right; exact ⟨by omega, by omega, h2⟩
+    · left; exact ⟨h1, Or.inr h2⟩
+  · rintro (⟨h1, h2 | h2⟩ | ⟨h1, h2, h3⟩)
+    · left; left; exact ⟨h1, h2⟩
+    · right; exact ⟨h1, h2⟩
+    · left; right; exact ⟨⟨y - lo, by omega, by omega⟩, h3⟩
+
+/-- **compaction only ever selects spent leaves at or below the cutoff**: a position chosen by
+`removed_pre_cutoff` is a leaf position `≤ cutoff_pos`, not yet pruned, that is neither in the
+leaf set (unspent) nor in `rewind_rm_pos` (spent after the cutoff, must stay for rewinds) -/
+theorem mem_removedPreCutoff {ls : LeafSet} {cutoff : Nat} {rm : Bitmap} {pl : PruneList} {x : Nat}
+    (h : x ∈ ls.removedPreCutoff cutoff rm pl) :
+    1 ≤ x ∧ x ≤ cutoff ∧ x ∉ ls.bitmap ∧ x ∉ rm ∧ isLeaf (x - 1) = true ∧ pl.isPruned (x - 1) = false := by
+  unfold removedPreCutoff at h
+  rw [mem_and, mem_flip] at h
+  obtain ⟨hf, hu⟩ := h
+  unfold unprunedPreCutoff at hu
+  simp only [List.mem_filter, List.mem_range', Bool.and_eq_true, Bool.not_eq_true'] at hu
+  obtain ⟨⟨i, hi1, rfl⟩, hleaf, hnp⟩ := hu
+  rcases hf with ⟨_, h2⟩ | ⟨h1, h2, h3⟩
+  · omega
+  · rw [mem_or, mem_removeRange] at h3
+    refine ⟨by omega, by omega, ?_, ?_, hleaf, hnp⟩
+    · intro hm; exact h3 (Or.inl ⟨hm, by omega⟩)
+    · intro hm; exact h3 (Or.inr hm)
+
 end LeafSet
 
 /-! ## Backend: a unit of work (fixed-size data file) -/
